@@ -138,26 +138,23 @@ deriving DecidableEq, Repr
 
 def CfgRow.pk (r : CfgRow) : String := pk2 r.kind r.name
 
-/-- GHOST flags (instrumentation only: no function of the model reads them, the real store has no counterpart,
-    the engine does not print them). Each flag is raised, and stays raised, when one of the recorded mechanisms
-    by which consul's derived tables drift from their recomputation fires; the "exact under …" theorems of
-    CV.Props.C07 take "flag not raised" as their hypothesis on the log. -/
+/-- GHOST record (instrumentation only: no function of the model reads it, the real store has no counterpart,
+    the engine does not print it). It lists the keys of derived rows at the moments one of the recorded mechanisms
+    by which consul's derived tables drift from their recomputation fires; the "justified or known" theorems of
+    CV.Props.C07 say a derived row can disagree with the recomputation only if its key is listed here. -/
 structure Ghost where
-  /-- `freeServiceVirtualIP` freed an address that a catalog row still advertises -/
-  freedAdvertised : Bool := false
-  /-- a local instance was re-registered under another kind, name or Connect name (`ensureServiceTxn` only upserts
-      kind-service-names) -/
-  svcRewrite : Bool := false
-  /-- a local instance was registered under a name that an instance of ANOTHER kind carries (`deleteServiceTxn`
-      cleans a (kind, name) row only when no instance of that name remains) -/
-  nameKindClash : Bool := false
-  /-- a service-defaults entry with a Destination was overwritten by one without -/
-  destOverwrite : Bool := false
+  /-- virtual-ips keys `freeServiceVirtualIP` freed while a catalog row still advertised the address -/
+  freedAdvertised : List String := []
+  /-- kind-service-names keys left behind: (a) the old (kind, name) / connect-enabled name of a local instance
+      re-registered under another kind, name or Connect name (`ensureServiceTxn` only upserts); (b) the (kind, name)
+      of a deregistered instance when instances of the name remain but none of that kind (`deleteServiceTxn` cleans
+      only when no instance of the name remains); (c) the destination row of a service-defaults entry overwritten by
+      one without a Destination -/
+  staleKsn : List String := []
 deriving DecidableEq, Repr
 
-def Ghost.noteFree (g : Ghost) (b : Bool) : Ghost := ⟨g.freedAdvertised || b, g.svcRewrite, g.nameKindClash, g.destOverwrite⟩
-def Ghost.noteSvc (g : Ghost) (a b : Bool) : Ghost := ⟨g.freedAdvertised, g.svcRewrite || a, g.nameKindClash || b, g.destOverwrite⟩
-def Ghost.noteDest (g : Ghost) (b : Bool) : Ghost := ⟨g.freedAdvertised, g.svcRewrite, g.nameKindClash, g.destOverwrite || b⟩
+def Ghost.noteFree (g : Ghost) (b : Bool) (key : String) : Ghost := ⟨if b then key :: g.freedAdvertised else g.freedAdvertised, g.staleKsn⟩
+def Ghost.noteStale (g : Ghost) (keys : List String) : Ghost := ⟨g.freedAdvertised, g.staleKsn ++ keys⟩
 
 structure XState where
   loc : Cat := {}
@@ -288,7 +285,7 @@ def freeVip (s : XState) (peer name : String) : XState :=
   else match tfind VipRow.pk (vipKey peer name) s.vips with
     | none => s
     | some r => { s with vips := terase VipRow.pk (vipKey peer name) s.vips, freeIP := some r.ip,
-                         ghost := s.ghost.noteFree (advertisedKey s (vipKey peer name)) }
+                         ghost := s.ghost.noteFree (advertisedKey s (vipKey peer name)) (vipKey peer name) }
 
 /-! ### services -/
 
@@ -320,15 +317,16 @@ def reqSame (x : Svc) (e : SvcX) (q : SvcReq) : Bool :=
 def SvcReq.connectName (q : SvcReq) : Option String :=
   if q.kind = .connectProxy then some q.dest else if q.native then some q.name else none
 
-/-- GHOST: the registration changes kind, name or Connect name of an existing local instance -/
-def svcRewriteOf (c : Cat) (node : String) (q : SvcReq) : Bool :=
+/-- GHOST: the kind-service-names keys a registration leaves without an owner: the old (kind, name) of the instance
+    when kind or name change, its old connect-enabled name when the Connect name changes -/
+def svcStaleKeys (c : Cat) (node : String) (q : SvcReq) : List String :=
   match svcFind c.st node q.id, extFind c node q.id with
   | some x, some ex =>
-    ex.kind != q.kind || lc x.name != lc q.name || (connectName (x, ex)).map lc != q.connectName.map lc
-  | _, _ => false
-
-/-- GHOST: the name is carried by a local instance of another kind -/
-def nameKindClashOf (c : Cat) (q : SvcReq) : Bool := c.rows.any fun r => lc r.1.name == lc q.name && r.2.kind != q.kind
+    (if ex.kind ≠ q.kind ∨ lc x.name ≠ lc q.name then [ksnKey ex.kind x.name] else []) ++
+    (match connectName (x, ex) with
+      | some n => if q.connectName.map lc = some (lc n) then [] else [ksnKey .connectEnabled n]
+      | none => [])
+  | _, _ => []
 
 /-- write a service row and its attributes -/
 def XState.putSvc (s : XState) (p : String) (v : Svc) (e : SvcX) : XState :=
@@ -341,7 +339,7 @@ def ensureServiceX (s : XState) (p : String) (idx : Nat) (node : String) (q : Sv
   -- local services: kind-service-names (gateway-services maintenance: not modelled)
   let s1 := if p = "" then
       { s with kindNames := ksnUpsert s.kindNames idx q.kind q.name,
-               ghost := s.ghost.noteSvc (svcRewriteOf c node q) (nameKindClashOf c q) }
+               ghost := s.ghost.noteStale (svcStaleKeys c node q) }
     else s
   -- connect services: connect-enabled name and virtual IP of the destination
   let r2 : Except XErr (XState × Option Nat) :=
@@ -377,10 +375,17 @@ def ensureServiceCasX (s : XState) (p : String) (idx : Nat) (node : String) (q :
     | .ok s' => .ok (s', true)
     | .error e => .error e
 
+/-- GHOST: the kind-service-names key a deregistration leaves without an owner (local catalog; called when instances
+    of the name remain): none of the remaining instances of the name has the deleted instance's kind -/
+def leftStaleKeys (c : Cat) (p : String) (v : Svc) (e : SvcX) : List String :=
+  if p = "" ∧ c.rows.all (fun r => !(r.2.kind == e.kind && lc r.1.name == lc v.name)) = true then [ksnKey e.kind v.name] else []
+
 /-- the part of `deleteServiceTxn` after the row delete that touches the derived tables -/
 def afterServiceDelete (s : XState) (p : String) (v : Svc) (e : SvcX) : XState :=
   let s1 :=
-    if hasInstanceNamed (s.cat p) v.name then s
+    if hasInstanceNamed (s.cat p) v.name then
+      -- GHOST: instances of the name remain (no cleanup), none of them of the deleted instance's kind
+      { s with ghost := s.ghost.noteStale (leftStaleKeys (s.cat p) p v e) }
     else
       let s' := freeVip s p v.name
       if p = "" then { s' with kindNames := ksnCleanup s'.kindNames e.kind v.name } else s'
@@ -565,9 +570,11 @@ def configUpsert (s : XState) (idx : Nat) (kind name : String) (dest : Bool) (to
   | .error e => .error e
   | .ok s2 =>
     let create := match cfgFind s kind name with | some x => x.create | none => idx
-    let over := match cfgFind s kind name with | some x => kind == "service-defaults" && x.dest && !dest | none => false
+    let over : List String := match cfgFind s kind name with
+      | some x => if kind = "service-defaults" ∧ x.dest = true ∧ dest = false then [ksnKey .destination name] else []
+      | none => []
     .ok { s2 with cfg := tupsert CfgRow.pk strLt ⟨kind, name, dest, tok, create, idx⟩ s2.cfg,
-                  ghost := s2.ghost.noteDest over }
+                  ghost := s2.ghost.noteStale over }
 
 /-- `deleteConfigEntryTxn` -/
 def configDelete (s : XState) (kind name : String) : XState :=
